@@ -887,16 +887,28 @@ func syncwireSuite(seed uint64, tier, outDir string) (*core.Result, error) {
 			region := len(content) - 72 - 64 - 576 // bytes of the list
 			var spots []int
 			if region > 0 {
-				spots = append(spots, 576+32, 576+34+rng.Intn(region-34), len(content)-72-64-1) // ban flag, somewhere, last byte of the last entry signature
+				spots = append(spots, 576+32, 576+34+rng.Intn(region-34), len(content)-72-64-1, len(content)-72-64-65, len(content)-72-64-70) // ban flag, somewhere, last byte of the last entry signature, its UDP port, its HTTP port
 			}
 			if d.mig != nil {
 				spots = append(spots, 540, 572, len(content)-72-1, len(content)-72-64) // new GCA, new id, order signature
 			}
+			// the client parsing these already knows every server of the list (as after an earlier sync):
+			// an entry it knows is checked like any other
+			ck := client.VerifSyncIdentityClient(d.key.pub, d.id)
+			kn := map[glow.PublicKey]client.GCAServer{}
+			lst := servers
+			if d.mig != nil {
+				lst = d.mig.NewServers
+			}
+			for _, e := range lst {
+				kn[e.PublicKey] = client.GCAServer{Banned: e.Banned, Location: e.Location, HttpPort: e.HttpPort, TcpPort: e.TcpPort, UdpPort: e.UdpPort}
+			}
+			ck.VerifSyncSetServers(kn)
 			for _, p := range spots {
 				cnt := append([]byte{}, content...)
 				cnt[p] ^= 1 << uint(rng.Intn(8))
 				m := resign(cnt, rs.keys)
-				o := parseVia(res, peer, c, m, rs.keys.pub, rs.gca.pub)
+				o := parseVia(res, peer, ck, m, rs.keys.pub, rs.gca.pub)
 				pcs = append(pcs, core.Tuple(core.Nat(0), "(MReplace "+core.Hex(m)+" (Some "+core.Hex(rs.keys.pub[:])+"))", core.Z(o.now), o.gallina()))
 				mustReject(o, "inner-tamper", map[string]interface{}{"kind": "inner-tamper", "pos": p})
 			}
